@@ -134,6 +134,7 @@ export class RangeListManager {
             const k = `${key}--${inc}`
             keyMap[k] = index
             rawKeys[index] = k
+            sharedKeyMap[k] = items // the renamed key is what `diff` looks up
           }
         }
       }
